@@ -381,11 +381,15 @@ func ParentMain(self string, id, tier string, verifDir string) int {
 			fmt.Printf("KNOWN-FINDING: property=%s %s\n", id, f.What)
 		}
 	}
-	_ = os.MkdirAll(filepath.Join(verifDir, "replays"), 0o755)
+	repDir := filepath.Join(verifDir, "replays")
+	if d := os.Getenv("VERIF_EVIDENCE_DIR"); d != "" {
+		repDir = filepath.Join(d, "replays")
+	}
+	_ = os.MkdirAll(repDir, 0o755)
 	exit := 0
 	for _, v := range alarms {
 		name := fmt.Sprintf("%s-%016x.json", id, Hash(v.Signature+"|"+v.Scenario))
-		p := filepath.Join(verifDir, "replays", name)
+		p := filepath.Join(repDir, name)
 		b, _ := json.MarshalIndent(v, "", " ")
 		_ = os.WriteFile(p, b, 0o644)
 		fmt.Printf("VIOLATION property=%s replay=%s\n", id, p)
@@ -468,9 +472,13 @@ func writeEvidence(def *CheckDef, tier string, seed int64, st *Stats, exhaustive
 		"wall_s":      wall,
 		"violations":  alarms,
 	}
-	_ = os.MkdirAll(filepath.Join(verifDir, "evidence"), 0o755)
+	evDir := filepath.Join(verifDir, "evidence")
+	if d := os.Getenv("VERIF_EVIDENCE_DIR"); d != "" {
+		evDir = d // self-test runs against deliberately broken trees must not overwrite the real evidence
+	}
+	_ = os.MkdirAll(evDir, 0o755)
 	b, _ := json.MarshalIndent(ev, "", " ")
-	_ = os.WriteFile(filepath.Join(verifDir, "evidence", def.ID+".json"), b, 0o644)
+	_ = os.WriteFile(filepath.Join(evDir, def.ID+".json"), b, 0o644)
 }
 
 // ReplayMain re-executes a violation artefact without search.
